@@ -133,6 +133,10 @@ type Streamer struct {
 	caller *Streamer
 	loops  map[*ssa.BasicBlock]*Loop
 	iters  map[*Frame]*Streamer
+	acc    *accCtx
+	// accStore recognises the stores into the accumulator field of the writer
+	// object being replayed (objbuf.go)
+	accStore func(*ssa.Store) bool
 	// isFail overrides what counts as a failing exit of a loop body (unroll.go)
 	isFail func(*ssa.BasicBlock, map[*ssa.BasicBlock]bool) bool
 }
@@ -278,6 +282,21 @@ func (s *Streamer) stream1(v ssa.Value) []*Piece {
 			if k, isK := x.X.(*ssa.Const); isK {
 				return s.Stream(k)
 			}
+			// []byte(sb.String()) of a local strings.Builder / bytes.Buffer
+			if call, isCall := x.X.(*ssa.Call); isCall {
+				if f := call.Common().StaticCallee(); f != nil && (f.String() == "(*strings.Builder).String" || f.String() == "(*bytes.Buffer).String") {
+					ps := s.buffer(call.Common().Args[0], call)
+					opaque := false
+					for _, p := range ps {
+						if p.Kind == "unknown" {
+							opaque = true
+						}
+					}
+					if !opaque {
+						return ps
+					}
+				}
+			}
 			return []*Piece{{Kind: "bytes", Width: -1, Src: v, At: x}}
 		}
 		return s.Stream(x.X)
@@ -312,6 +331,20 @@ func (s *Streamer) stream1(v ssa.Value) []*Piece {
 		return []*Piece{{Kind: "bytes", Width: w, Src: v, At: x}}
 	case *ssa.UnOp:
 		if x.Op == token.MUL {
+			// the accumulator of a writer object (objbuf.go)
+			if s.acc != nil && s.acc.isField(x.X) {
+				return s.acc.cur
+			}
+			if obj, field, ok := objOf(x); ok && obj.Parent() == s.Fn {
+				ps := s.objField(obj, field, x)
+				for _, p := range ps {
+					if p.Kind == "unknown" {
+						// not a writer object that can be replayed: an opaque run, as before
+						return []*Piece{{Kind: "bytes", Width: -1, Src: v, At: x, Why: p.Why}}
+					}
+				}
+				return ps
+			}
 			if el, ef, ok := elemLoad(x, s.frame); ok {
 				// element of a local constant table ([][]byte{a, b, …}[k]): the value stored there
 				return s.streamIn(el, ef)
@@ -493,7 +526,12 @@ func GlobalConstBytes(g *ssa.Global) ([]byte, bool) {
 // "base ++ tail": the result is only read afterwards, and no other append that
 // can execute in the same run extends the same base.
 func (s *Streamer) chainOK(call *ssa.Call, base ssa.Value) string {
-	if why := readOnly(call, 0); why != "" {
+	// the store of the extended slice back into the accumulator field of a writer
+	// object is what objbuf.go replays
+	if why := readOnlyX(call, 0, func(in ssa.Instruction) bool {
+		st, ok := in.(*ssa.Store)
+		return ok && s.accStore != nil && s.accStore(st)
+	}); why != "" {
 		return fmt.Sprintf("the result of %s %s", call.Name(), why)
 	}
 	if base.Referrers() == nil {
@@ -528,13 +566,17 @@ func (s *Streamer) chainOK(call *ssa.Call, base ssa.Value) string {
 var readOnlyCallees = map[string]bool{
 	"bytes.Equal": true, "bytes.Compare": true, "bytes.HasPrefix": true,
 	"(*bytes.Buffer).Write": true, "encoding/hex.EncodeToString": true,
+	"(*strings.Builder).Write": true, "(*strings.Builder).WriteString": true,
 	"(*bytes.Buffer).WriteString": true, "encoding/hex.Dump": true,
 }
 
 // readOnly: every use of slice value v only reads it (no element store, not
 // retained in memory, not handed to a callee that may write it). Returns ""
 // or the offending use.
-func readOnly(v ssa.Value, d int) string {
+func readOnly(v ssa.Value, d int) string { return readOnlyX(v, d, nil) }
+
+// readOnlyX is readOnly with uses the caller accounts for itself (skip).
+func readOnlyX(v ssa.Value, d int, skip func(ssa.Instruction) bool) string {
 	if v.Referrers() == nil {
 		return ""
 	}
@@ -542,10 +584,13 @@ func readOnly(v ssa.Value, d int) string {
 		return "is used through too many re-slices"
 	}
 	for _, r := range *v.Referrers() {
+		if skip != nil && skip(r) {
+			continue
+		}
 		switch x := r.(type) {
 		case *ssa.DebugRef, *ssa.Return, *ssa.Phi:
 		case *ssa.Slice:
-			if why := readOnly(x, d+1); why != "" {
+			if why := readOnlyX(x, d+1, skip); why != "" {
 				return why
 			}
 		case *ssa.IndexAddr:
@@ -1322,11 +1367,11 @@ func (s *Streamer) buffer(buf ssa.Value, at ssa.Instruction) []*Piece {
 				return unknown(at, "the bytes.Buffer is passed to %s", calleeStr(cc))
 			}
 			switch f.String() {
-			case "(*bytes.Buffer).Write", "(*bytes.Buffer).WriteString":
+			case "(*bytes.Buffer).Write", "(*bytes.Buffer).WriteString", "(*strings.Builder).Write", "(*strings.Builder).WriteString":
 				add(x, s.Stream(cc.Args[1]))
-			case "(*bytes.Buffer).WriteByte":
+			case "(*bytes.Buffer).WriteByte", "(*strings.Builder).WriteByte":
 				add(x, []*Piece{bytePiece(cc.Args[1], x)})
-			case "(*bytes.Buffer).Bytes", "(*bytes.Buffer).Len", "(*bytes.Buffer).String", "(*bytes.Buffer).Grow":
+			case "(*bytes.Buffer).Bytes", "(*bytes.Buffer).Len", "(*bytes.Buffer).String", "(*bytes.Buffer).Grow", "(*strings.Builder).String", "(*strings.Builder).Len", "(*strings.Builder).Grow":
 			default:
 				return unknown(at, "bytes.Buffer method %s is not modelled", f.Name())
 			}
@@ -1334,11 +1379,18 @@ func (s *Streamer) buffer(buf ssa.Value, at ssa.Instruction) []*Piece {
 			return unknown(at, "the bytes.Buffer is used by %T", r)
 		}
 	}
+	return s.accumulate(ops, al.Block(), at, "bytes.Buffer")
+}
+
+// accumulate: the concatenation of the deltas ops (per block) appended to an
+// accumulator that is empty at the start of block `start`, when `at` executes.
+// Joins of paths become alternatives; an accumulator live across a loop is not
+// read.
+func (s *Streamer) accumulate(ops map[*ssa.BasicBlock][]bufOp, start *ssa.BasicBlock, at ssa.Instruction, what string) []*Piece {
 	for b := range ops {
 		sort.Slice(ops[b], func(i, j int) bool { return instrBefore(ops[b][i].in, ops[b][j].in) })
 	}
 	s.bufMemo = map[*ssa.BasicBlock][]*Piece{}
-	start := al.Block()
 	var atEnd func(b *ssa.BasicBlock, upto ssa.Instruction, d int) []*Piece
 	atEnd = func(b *ssa.BasicBlock, upto ssa.Instruction, d int) []*Piece {
 		if upto == nil {
@@ -1352,7 +1404,7 @@ func (s *Streamer) buffer(buf ssa.Value, at ssa.Instruction) []*Piece {
 			pre = unknown(at, "control flow too deep")
 		case b == start:
 		case isLoopHeader(b):
-			pre = unknown(at, "the bytes.Buffer is live across a loop")
+			pre = unknown(at, "the %s is live across a loop", what)
 		default:
 			var alts [][]*Piece
 			var preds []*ssa.BasicBlock
@@ -1364,7 +1416,7 @@ func (s *Streamer) buffer(buf ssa.Value, at ssa.Instruction) []*Piece {
 				preds = append(preds, p)
 			}
 			if len(alts) == 0 {
-				pre = unknown(at, "block not dominated by the buffer allocation")
+				pre = unknown(at, "block not dominated by the allocation of the %s", what)
 			} else if len(alts) == 1 {
 				pre = alts[0]
 			} else {
